@@ -394,3 +394,41 @@ V("hat_matrix 3D: index table rotated", "C20", MATH, "        i, j = [1, 2, 0], 
 V("hat_matrix 3D: sign convention exchanged", "C20", MATH, "        result[..., i, j] = x\n        result[..., j, i] = -x\n        return result", "        result[..., i, j] = -x\n        result[..., j, i] = x\n        return result", "E12.hat", "hat_matrix")
 V("twin: hat_matrix 3D with the tables listed in another order", "C20", MATH, "        i, j = [1, 2, 0], [2, 0, 1]\n        result[..., i, j] = x\n        result[..., j, i] = -x",
   "        i, j = [2, 0, 1], [1, 2, 0]\n        result[..., i, j] = -x\n        result[..., j, i] = x", "silent")
+
+
+# ------------------------------------------------------------------------------------------------ from_array default copy=False (found by seeding, R5_C12)
+IMP_PC = (SHAPES, "    Plane,\n    PlaneTensor,", "    Plane,\n    PlaneCollection,\n    PlaneTensor,")
+V("working copy of the planes replaced by from_array of a reshaped view (copy=False by default)", "C12", SHAPES, "                e = type(e)(e)\n",
+  "                e = PlaneCollection.from_array(e.array.reshape(e.shape))\n", "E1.mem", "_normalized_projection", extra=[IMP_PC])
+V("twin: working copy through from_array(..., copy=True)", "C12", SHAPES, "                e = type(e)(e)\n",
+  "                e = PlaneCollection.from_array(e.array.reshape(e.shape), copy=True)\n", "silent", extra=[IMP_PC])
+
+
+# ------------------------------------------------------------------------------------------------ tolerance coupling (K8; found by seeding: C02, R5_C02, R5_C04)
+ISZ = "        is_zero = result.is_zero()\n        if result.free_indices == 0 and is_zero:"
+for _p in ("C02", "C04"):
+    V(f"dependence tolerance scaled by the largest coordinate of the whole collection ({_p})", _p, POINT, ISZ,
+      "        scale = np.prod([np.max(np.abs(o.array), initial=1) for o in args])\n        is_zero = result.is_zero(tol=EQ_TOL_ABS * scale)\n        if result.free_indices == 0 and is_zero:", "E6.K8", "_join_meet_duality")
+    V(f"twin: dependence tolerance scaled per element ({_p})", _p, POINT, ISZ,
+      "        axes = tuple(result._covariant_indices) + tuple(result._contravariant_indices)\n        scale = np.max(np.abs(result.array), axis=axes)\n        is_zero = result.is_zero(tol=EQ_TOL_ABS)\n        if result.free_indices == 0 and is_zero:", "silent")
+V("isinf tolerance from the largest coordinate of the whole array", "C04", POINT, "        isinf = np.isclose(z, 0, atol=EQ_TOL_ABS)\n        if np.all(isinf | (z == 1)):",
+  "        isinf = np.isclose(z, 0, atol=EQ_TOL_ABS * min(np.max(np.abs(array)), 1))\n        if np.all(isinf | (z == 1)):", "E6.K8", "_normalize_array")
+V("twin: isinf tolerance from the largest coordinate of each point", "C04", POINT, "        isinf = np.isclose(z, 0, atol=EQ_TOL_ABS)\n        if np.all(isinf | (z == 1)):",
+  "        isinf = np.isclose(z, 0, atol=EQ_TOL_ABS * np.minimum(np.max(np.abs(array), axis=-1, keepdims=True), 1))\n        if np.all(isinf | (z == 1)):", "silent")
+
+
+# ------------------------------------------------------------------------------------------------ matrix-product form of the action (V5; found by seeding, R5_C06)
+APPLY_ANCHOR = "    def __getitem__(self, index: TensorIndex) -> Tensor | np.generic:\n        result = super().__getitem__(index)\n\n        if not isinstance(result, Tensor) or result.tensor_shape != self.tensor_shape:"
+def _apply_override(body: str) -> str:
+    return ("    def __apply__(self, transformation):\n        m = transformation.array if self.is_dual else transformation.inverse().array\n"
+            "        result = self.copy()\n" + body + "        return result\n\n")
+for _p in ("C06", "C07"):
+    V(f"quadric action as two matrix products, dual case transposed ({_p})", _p, CURVE, APPLY_ANCHOR,
+      _apply_override("        result.array = matmul(matmul(m, self.array, transpose_a=True), m)\n") + APPLY_ANCHOR, "E4.V5", "QuadricTensor.__apply__", quick=True)
+    V(f"twin: quadric action as two matrix products, both cases right ({_p})", _p, CURVE, APPLY_ANCHOR,
+      ("    def __apply__(self, transformation):\n        result = self.copy()\n        if self.is_dual:\n            m = transformation.array\n"
+       "            result.array = matmul(matmul(m, self.array), m, transpose_b=True)\n        else:\n            m = transformation.inverse().array\n"
+       "            result.array = matmul(matmul(m, self.array, transpose_a=True), m)\n        return result\n\n") + APPLY_ANCHOR, "silent")
+V("quadric action with the matrix and the inverse exchanged", "C07", CURVE, APPLY_ANCHOR,
+  ("    def __apply__(self, transformation):\n        m = transformation.inverse().array if self.is_dual else transformation.array\n        result = self.copy()\n"
+   "        result.array = matmul(matmul(m, self.array, transpose_a=True), m)\n        return result\n\n") + APPLY_ANCHOR, "E4.V5", "QuadricTensor.__apply__")
